@@ -142,3 +142,47 @@ def fix_legacy_rows(node):
         node.reply(conn, req, "RESULT", result_rows_any(cols, rows, ks="system", table=table, version=req["version"]))
     node._rows = _rows
     return node
+
+
+# ------------------------------------------------------------------ hand-off at Event.set
+def handoff_events(sim, schedule="all"):
+    """Make `Event.set()` in cassandra.connection / cassandra.cluster a point where the setting thread is
+    descheduled for ONE scheduler slot, so that a thread woken by the event (e.g. the one blocked in
+    Connection.factory on connected_event) runs BEFORE the setter executes its next statement.  Real threads
+    can always be pre-empted there; at the sim's "blocking" granularity the setter would otherwise run on until
+    it blocks.  schedule: "all" | list of 0/1 consumed per set() call (exhausted = no hand-off).
+    Call inside `with sim:`; returns a restore function (call it before leaving the block) and a counter dict."""
+    import cassandra.cluster as C
+    import cassandra.connection as K
+    from sim.vthreads import VEvent
+    world = sim.world
+    bits = None if schedule == "all" else list(schedule)
+    stats = {"sets": 0, "handoffs": 0}
+
+    class HandoffEvent(VEvent):
+        def set(self):
+            self.flag = True
+            stats["sets"] += 1
+            if world.killing or not world.in_actor():
+                return
+            if bits is not None:
+                if not bits or not bits.pop(0):
+                    return
+            stats["handoffs"] += 1
+            n = [0]
+
+            def once_others_ran():
+                n[0] += 1
+                return n[0] > 2        # 1: block()'s own test, 2: the scheduler pass in which the others get their slot
+            world.block(once_others_ran, 1e-9)
+
+    def factory():
+        return HandoffEvent(world)
+    saved = [(m, m.Event) for m in (K, C)]
+    for m, _old in saved:
+        m.Event = factory
+
+    def restore():
+        for m, old in saved:
+            m.Event = old
+    return restore, stats
